@@ -1369,6 +1369,64 @@ def changed_file_between_sessions_case(ctx, workdir: str, transport_kind: str, v
             ctx.violation(key, what, case)
 
 
+def rebound_transport_case(ctx, workdir: str, mode: str) -> None:
+    """`gateway.transport` is a public attribute: an application that fails over to another bridge inside a session (connects
+    the new transport, assigns it, disconnects the old one itself) leaves the context with the transport that is in force
+    disconnected, the final registry written and nothing left."""
+    from aiomysensors.gateway import Config, Gateway
+    from aiomysensors.model.node import Node
+
+    path = os.path.join(workdir, "rebound.json")
+    prepare_file(path, "missing")
+    case = {"engine": "vloop", "rebound_transport": mode}
+
+    async def scenario() -> dict:
+        first, second = ScriptedTransport(), ScriptedTransport()
+        gateway = Gateway(first, Config(persistence_file=path, **OPTIONS_IN_FORCE))
+        before = set(asyncio.all_tasks())
+        observed = None
+        try:
+            async with gateway:
+                await asyncio.sleep(1)
+                await second.connect()
+                gateway.transport = second
+                await first.disconnect()
+                gateway.nodes[40] = Node(40, 17, "2.0", sketch_name="after fail-over")
+                second.lines.append("40;255;3;0;0;55\n")
+                async for _message in gateway.listen():
+                    break
+                await asyncio.sleep(1)
+                if mode == "body-raises":
+                    raise KeyError("application error")
+        except KeyError as exc:
+            observed = exc
+        await asyncio.sleep(0)
+        left = [repr(t)[:160] for t in asyncio.all_tasks() if t not in before and t is not asyncio.current_task()
+                and not t.done()]
+        return {"observed": observed, "left": left, "second_disconnected": second.disconnected, "second_reads": second.attempts,
+                "final": typed(snap(gateway.nodes))}
+
+    result, _loop = run_virtual(scenario)
+    ctx.case(("rebound-transport", mode), sample=case)
+    ctx.clause("transport-rebound-inside-session")
+    if isinstance(result, LogicalDeadlock):
+        ctx.violation("context-deadlock", f"logical deadlock in {case}", case)
+        return
+    if isinstance(result, BaseException):
+        from ..harness import scenario_exception
+
+        scenario_exception(ctx, result, case, "rebound-transport")
+        return
+    if result["second_disconnected"] < 1:
+        ctx.violation("disconnect-not-called", "the application assigned another (connected) transport to gateway.transport "
+                                               "inside the session: leaving the context did not disconnect it", case)
+    if result["left"]:
+        ctx.violation("task-left-after-exit", f"rebound transport: tasks left {result['left']}", case)
+    status, disk = registry_on_disk(path)
+    if status != "ok" or disk != result["final"]:
+        ctx.violation("no-final-save", f"rebound transport: file after exit is not the final registry (file {status})", case)
+
+
 class _LeaveEarly(Exception):
     """The body of a session ends before the entry save has finished."""
 
@@ -1802,6 +1860,8 @@ def run_case(ctx, case: dict) -> None:
             late_exit_case(ctx, workdir, case["late_exit_periods"], case["k"], case["mode"])
         elif "long_horizon_hours" in case:
             long_horizon_case(ctx, workdir, case["long_horizon_hours"])
+        elif "rebound_transport" in case:
+            rebound_transport_case(ctx, workdir, case["rebound_transport"])
         elif "cancelled_exit" in case:
             cancelled_exit_case(ctx, workdir, case["transport"], case["k"], case["cancelled_exit"], case["file"])
         elif "builtin_connect_failure" in case:
@@ -1891,6 +1951,9 @@ def run(ctx) -> None:
                 for k in (0, 1, 3, 8, 20):
                     if ctx.mine():
                         second_session_case(ctx, workdir, transport, k)
+            for i, mode in enumerate(("normal", "body-raises")):
+                if ctx.mine(i + 2):
+                    rebound_transport_case(ctx, workdir, mode)
             for first in ("disconnect-fails", "body-raises", "connect-fails"):
                 for k in (0, 3):
                     if ctx.mine():
